@@ -262,8 +262,9 @@ pub fn oracle(prop: &str, src: &str, source: &Source, cfg: Cfg, out: &str, count
     f
 }
 
-pub fn case_hash(src: &str, cfg: Cfg) -> u64 {
-    hash_str(&format!("{}|{}|{}|{}|{}", src, cfg.tab, cfg.width, cfg.blank, cfg.reorder))
+pub fn case_hash(src: &str, _cfg: Cfg) -> u64 {
+    // the index fixes the configuration; the hash guards against a changed generator
+    hash_str(src)
 }
 
 /// `VH_KNOWN` names known-indices.json: {"Cxx": [[gen, idx, hash], …], …} (written by scripts/revalidate.py).
